@@ -18,8 +18,8 @@ ID = "C06"
 CASES = {"quick": 2400, "thorough": 30000}
 FLOOR = {"quick": 1800, "thorough": 22000}
 FLOOR_COUNTERS = {
-    "quick": {"steps_judged": 80000, "sparse_steps_pruned": 10000, "sparse_steps_pruned_low_switch": 50, "clock_scripted_fits": 3000, "steered_clock_reached_target": 800, "warm_links": 500, "estimators_with_a_past": 2500, "small_unit_cases": 120, "configured_not_by_constructor": 3000, "non_default_containers": 3000, "carried_by:deepcopy": 150, "carried_by:pickle": 150, "more_than_2048_points": 5},
-    "thorough": {"steps_judged": 600000, "sparse_steps_pruned": 80000, "clock_scripted_fits": 15000, "steered_clock_reached_target": 4000, "warm_links": 3000, "estimators_with_a_past": 30000, "small_unit_cases": 1500, "configured_not_by_constructor": 40000, "non_default_containers": 40000, "carried_by:deepcopy": 2000, "carried_by:pickle": 2000, "more_than_2048_points": 70},
+    "quick": {"steps_judged": 80000, "sparse_steps_pruned": 10000, "sparse_steps_pruned_low_switch": 50, "clock_scripted_fits": 3000, "steered_clock_reached_target": 800, "warm_links": 500, "estimators_with_a_past": 2500, "small_unit_cases": 120, "configured_not_by_constructor": 3000, "non_default_containers": 3000, "carried_by:deepcopy": 150, "carried_by:pickle": 150, "more_than_2048_points": 5, "unreached_thresholds_set": 3000},
+    "thorough": {"steps_judged": 600000, "sparse_steps_pruned": 80000, "clock_scripted_fits": 15000, "steered_clock_reached_target": 4000, "warm_links": 3000, "estimators_with_a_past": 30000, "small_unit_cases": 1500, "configured_not_by_constructor": 40000, "non_default_containers": 40000, "carried_by:deepcopy": 2000, "carried_by:pickle": 2000, "more_than_2048_points": 70, "unreached_thresholds_set": 40000},
 }
 RULE = (
     "case = point set (uniform / strongly clustered / duplicated / integer lattice / gauss), start int|'random', request "
@@ -99,6 +99,8 @@ def gen(rng, tier, index):
         s_["xform"] = gens.pick(rng, forms.PRESENT)
         s_["carry"] = gens.pick(rng, forms.CARRY)
         s_["clobber"] = bool(rng.random() < 0.5)
+        # a score threshold that is never reached changes nothing (the docstring's own example sets 1e-12)
+        s_["threshold"] = gens.pick(rng, (None, None, ("relative", 1e-12), ("relative", 1e-9), ("absolute", 0.0))) if kind not in ("dup_rows", "lattice") else None  # (on duplicated points an exhausted search does reach it)
     past = None
     if rng.random() < 0.3:  # the estimator objects were fitted before, on another cloud of the same shape
         past = rng.normal(size=X.shape) * unit * float(10.0 ** rng.uniform(-1, 1))
@@ -119,6 +121,9 @@ def _fit_voronoi(case, setting, j):
     if spec["xform"] != "C":
         j.note("non_default_containers")
     est = sel.make(spec)
+    if setting.get("threshold"):
+        est.score_threshold_type, est.score_threshold = setting["threshold"][0], float(setting["threshold"][1])
+        j.note("unreached_thresholds_set")
     if case.get("past") is not None:
         est.n_to_select = max(2, min(len(X), sel.resolve_n(case["chain"][-1], len(X))))
         j.lib("fit:earlier-history", est.fit, case["past"])
